@@ -157,6 +157,29 @@ def splitBatches (c : Cache) : List Hash → List Hash → Nat → List (List Ha
     if flushNow sz' then (h :: cur).reverse :: splitBatches c rest [] 0
     else splitBatches c rest (h :: cur) sz'
 
+/-! ### the batch object (`ldbBatch`, middleware/db/leveldb.go) and the loop written against it
+
+`Put` appends the pair and adds `len(value)` to `size`; `ValueSize` returns `size`;
+`Reset` clears both; `Write` hands the collected pairs to the store in one call. -/
+
+structure BatchSt where
+  items : List Hash
+  size : Nat
+
+def BatchSt.put (b : BatchSt) (c : Cache) (h : Hash) : BatchSt := ⟨b.items ++ [h], b.size + sizeOf c h⟩
+def BatchSt.valueSize (b : BatchSt) : Nat := b.size
+def BatchSt.reset (_ : BatchSt) : BatchSt := ⟨[], 0⟩
+
+/-- the Put/flush loop of `commit` as the Go code has it: `batch.Put`; `if batch.ValueSize() >=
+    IdealBatchSize { batch.Write(); batch.Reset() }`; at the end the final `batch.Write()`.
+    `acc` collects the physical writes issued so far. -/
+def commitLoop (c : Cache) : List Hash → BatchSt → List (List Hash) → List (List Hash)
+  | [], b, acc => acc ++ [b.items]
+  | h :: rest, b, acc =>
+    let b1 := b.put c h
+    if flushNow b1.valueSize then commitLoop c rest b1.reset (acc ++ [b1.items])
+    else commitLoop c rest b1 acc
+
 /-- `batch.Put(hash, node.rlp())` reaching the disk. -/
 def putNode (c : Cache) (d : Disk) (h : Hash) : Disk :=
   match c.lookup h with
